@@ -389,7 +389,9 @@ class Response:
                 filesize = os.fstat(fileno).st_size
                 nbytes = filesize - offset
             else:
-                nbytes = self.response_length
+                # what write() has already sent counts against the
+                # declared length too
+                nbytes = max(self.response_length - self.sent, 0)
         except (OSError, io.UnsupportedOperation):
             return False
 
